@@ -1,6 +1,7 @@
 import AL.Model.Facts
 import AL.Spec.Syntax
 import AL.Gen.Syntax
+import AL.Lemmas.ParseMapping
 /-
   C13 — unknown, duplicate and missing keys are reported in every section.
   Facts about parse.go, re-checked against the regenerated tables on every run, plus a small model of
@@ -95,5 +96,149 @@ def duplicate_key_statement : Prop :=
     (∃ q ∈ pre, fold q.1 = fold k) →
     (parseSection fold accepted cd (pre ++ (k, p) :: post)).Perm
       (MDiag.duplicated p k :: parseSection fold accepted cd (pre ++ post))
+
+/-! ### proofs of (d) and (e) -/
+
+theorem handle_append (accepted : List String) (cd : String → Nat) (a b : List KV) :
+    handle accepted cd (a ++ b) = handle accepted cd a ++ handle accepted cd b := by
+  induction a with
+  | nil => rfl
+  | cons kv rest ih => simp [handle, ih]
+
+/-- `dedup` looks at `seen` only through membership of the folded keys of the list it processes -/
+theorem dedup_congr (fold : String → String) (l : List (String × Nat)) :
+    ∀ seen seen' : List String, (∀ q ∈ l, seen.contains (fold q.1) = seen'.contains (fold q.1)) →
+      dedup fold l seen = dedup fold l seen' := by
+  induction l with
+  | nil => intros; rfl
+  | cons q rest ih =>
+    intro seen seen' h
+    obtain ⟨k, p⟩ := q
+    have hk : seen.contains (fold k) = seen'.contains (fold k) := h (k, p) (by simp)
+    have h1 : dedup fold rest seen = dedup fold rest seen' :=
+      ih seen seen' (fun q hq => h q (by simp [hq]))
+    have h2 : dedup fold rest (seen ++ [fold k]) = dedup fold rest (seen' ++ [fold k]) := by
+      apply ih
+      intro q hq
+      have := h q (by simp [hq])
+      simp only [List.contains_eq_mem, List.mem_append, List.mem_singleton, decide_eq_decide] at this ⊢
+      rw [this]
+    simp only [dedup, hk, h1, h2]
+
+/-- shape of `dedup` when a fresh key is inserted: one more `KV`, same diagnostics -/
+theorem dedup_insert_fresh (fold : String → String) (post : List (String × Nat)) (k : String) (p : Nat) :
+    ∀ (pre : List (String × Nat)) (seen : List String), seen.contains (fold k) = false →
+      (∀ q ∈ pre ++ post, fold q.1 ≠ fold k) →
+      ∃ kvs₁ kvs₂ ds, dedup fold (pre ++ post) seen = (kvs₁ ++ kvs₂, ds) ∧
+        dedup fold (pre ++ (k, p) :: post) seen = (kvs₁ ++ ⟨fold k, k, p⟩ :: kvs₂, ds) := by
+  intro pre
+  induction pre with
+  | nil =>
+    intro seen hs hne
+    refine ⟨[], (dedup fold post seen).1, (dedup fold post seen).2, rfl, ?_⟩
+    have : dedup fold post (seen ++ [fold k]) = dedup fold post seen := by
+      apply dedup_congr
+      intro q hq
+      exact AL.ParseMapping.contains_snoc_ne (hne q (by simpa using hq))
+    simp only [List.nil_append, dedup, hs, this, Bool.false_eq_true, ↓reduceIte]
+  | cons q rest ih =>
+    intro seen hs hne
+    obtain ⟨k', p'⟩ := q
+    have hk' : fold k' ≠ fold k := hne (k', p') (by simp)
+    have hne' : ∀ q ∈ rest ++ post, fold q.1 ≠ fold k := fun q hq => hne q (by simp only [List.cons_append, List.mem_cons]; exact Or.inr hq)
+    by_cases hc : seen.contains (fold k') = true
+    · obtain ⟨kvs₁, kvs₂, ds, e₁, e₂⟩ := ih seen hs hne'
+      refine ⟨kvs₁, kvs₂, .duplicated p' k' :: ds, ?_, ?_⟩
+      · simp only [List.cons_append, dedup, hc, e₁, Bool.false_eq_true, ↓reduceIte, List.nil_append]
+      · simp only [List.cons_append, dedup, hc, e₂, Bool.false_eq_true, ↓reduceIte, List.nil_append]
+    · have hc := Bool.eq_false_iff.2 hc
+      have hs' : (seen ++ [fold k']).contains (fold k) = false := by
+        rw [AL.ParseMapping.contains_snoc_ne (Ne.symm hk')]; exact hs
+      obtain ⟨kvs₁, kvs₂, ds, e₁, e₂⟩ := ih (seen ++ [fold k']) hs' hne'
+      refine ⟨⟨fold k', k', p'⟩ :: kvs₁, kvs₂, ds, ?_, ?_⟩
+      · simp only [List.cons_append, dedup, hc, e₁, Bool.false_eq_true, ↓reduceIte, List.nil_append]
+      · simp only [List.cons_append, dedup, hc, e₂, Bool.false_eq_true, ↓reduceIte, List.nil_append]
+
+theorem unknown_key : unknown_key_statement := by
+  intro fold accepted cd pre post k p hacc hne
+  obtain ⟨kvs₁, kvs₂, ds, e₁, e₂⟩ := dedup_insert_fresh fold post k p pre [] (by simp) hne
+  simp only [parseSection, e₁, e₂, handle_append, handle, hacc]
+  exact AL.ParseMapping.perm_insert_right _ _ _ _
+
+/-- shape of `dedup` when an already seen key is inserted: same `KV`s, one more diagnostic -/
+theorem dedup_insert_dup (fold : String → String) (post : List (String × Nat)) (k : String) (p : Nat) :
+    ∀ (pre : List (String × Nat)) (seen : List String),
+      (seen.contains (fold k) = true ∨ ∃ q ∈ pre, fold q.1 = fold k) →
+      ∃ kvs ds₁ ds₂, dedup fold (pre ++ post) seen = (kvs, ds₁ ++ ds₂) ∧
+        dedup fold (pre ++ (k, p) :: post) seen = (kvs, ds₁ ++ .duplicated p k :: ds₂) := by
+  intro pre
+  induction pre with
+  | nil =>
+    intro seen h
+    have hs : seen.contains (fold k) = true := by
+      rcases h with h | ⟨q, hq, _⟩
+      · exact h
+      · cases hq
+    exact ⟨(dedup fold post seen).1, [], (dedup fold post seen).2, rfl, by simp only [List.nil_append, dedup, hs, ↓reduceIte]⟩
+  | cons q rest ih =>
+    intro seen h
+    obtain ⟨k', p'⟩ := q
+    by_cases hc : seen.contains (fold k') = true
+    · have h' : seen.contains (fold k) = true ∨ ∃ q ∈ rest, fold q.1 = fold k := by
+        rcases h with h | ⟨q, hq, e⟩
+        · exact Or.inl h
+        · rcases List.mem_cons.1 hq with rfl | hq
+          · left; rw [← e]; exact hc
+          · exact Or.inr ⟨q, hq, e⟩
+      obtain ⟨kvs, ds₁, ds₂, e₁, e₂⟩ := ih seen h'
+      refine ⟨kvs, .duplicated p' k' :: ds₁, ds₂, ?_, ?_⟩
+      · simp only [List.cons_append, dedup, hc, e₁, Bool.false_eq_true, ↓reduceIte, List.nil_append]
+      · simp only [List.cons_append, dedup, hc, e₂, Bool.false_eq_true, ↓reduceIte, List.nil_append]
+    · have hc := Bool.eq_false_iff.2 hc
+      have h' : (seen ++ [fold k']).contains (fold k) = true ∨ ∃ q ∈ rest, fold q.1 = fold k := by
+        rcases h with h | ⟨q, hq, e⟩
+        · left; simp only [List.contains_eq_mem, List.mem_append, decide_eq_true_eq] at h ⊢; exact Or.inl h
+        · rcases List.mem_cons.1 hq with rfl | hq
+          · left; simp [← e]
+          · exact Or.inr ⟨q, hq, e⟩
+      obtain ⟨kvs, ds₁, ds₂, e₁, e₂⟩ := ih (seen ++ [fold k']) h'
+      refine ⟨⟨fold k', k', p'⟩ :: kvs, ds₁, ds₂, ?_, ?_⟩
+      · simp only [List.cons_append, dedup, hc, e₁, Bool.false_eq_true, ↓reduceIte, List.nil_append]
+      · simp only [List.cons_append, dedup, hc, e₂, Bool.false_eq_true, ↓reduceIte, List.nil_append]
+
+theorem duplicate_key : duplicate_key_statement := by
+  intro fold accepted cd pre post k p h
+  obtain ⟨kvs, ds₁, ds₂, e₁, e₂⟩ := dedup_insert_dup fold post k p pre [] (Or.inr h)
+  simp only [parseSection, e₁, e₂]
+  exact AL.ParseMapping.perm_insert_left _ _ _ _
+
+/-- concrete instance of (d): an unknown key `bogus` between `name` and `on` of a workflow; the
+diagnostics of the `on:` subtree are still produced (here the equality even holds on the nose after
+moving the new diagnostic). -/
+example :
+    parseSection lowerAscii ["name", "on", "jobs"] (fun id => if id = "on" then 2 else 0)
+      [("name", 1), ("bogus", 2), ("on", 3), ("jobs", 4)]
+    = [.unexpected 2 "bogus", .child "on" 0, .child "on" 1] := by decide +kernel
+
+example :
+    (parseSection lowerAscii ["name", "on", "jobs"] (fun id => if id = "on" then 2 else 0)
+      ([("name", 1)] ++ ("bogus", 2) :: [("on", 3), ("jobs", 4)])).Perm
+    (.unexpected 2 "bogus" :: parseSection lowerAscii ["name", "on", "jobs"]
+      (fun id => if id = "on" then 2 else 0) ([("name", 1)] ++ [("on", 3), ("jobs", 4)])) :=
+  unknown_key _ _ _ _ _ _ _ (by decide +kernel) (by decide +kernel)
+
+/-- concrete instance of (e): `ON` repeats `on` in a case-insensitive mapping; an unknown key that follows
+is still reported, after the `duplicated` diagnostic -/
+example :
+    parseSection lowerAscii ["name", "on", "jobs"] (fun id => if id = "on" then 1 else 0)
+      [("on", 1), ("bogus", 2), ("ON", 3), ("jobs", 4)]
+    = [.duplicated 3 "ON", .child "on" 0, .unexpected 2 "bogus"] := by decide +kernel
+
+example :
+    (parseSection lowerAscii ["name", "on", "jobs"] (fun id => if id = "on" then 1 else 0)
+      ([("on", 1), ("bogus", 2)] ++ ("ON", 3) :: [("jobs", 4)])).Perm
+    (.duplicated 3 "ON" :: parseSection lowerAscii ["name", "on", "jobs"]
+      (fun id => if id = "on" then 1 else 0) ([("on", 1), ("bogus", 2)] ++ [("jobs", 4)])) :=
+  duplicate_key _ _ _ _ _ _ _ ⟨("on", 1), by decide +kernel, by decide +kernel⟩
 
 end AL.C13
